@@ -131,6 +131,17 @@ func (g *gen) list(safe bool, depth, lvl int, linky bool) {
 	g.b.WriteString("<" + tag + ">")
 	for k, m := 0, 1+g.r.Intn(4); k < m; k++ {
 		g.b.WriteString("<li>" + g.text(safe, linky))
+		if g.r.Pct(12) {
+			// a block element directly inside the item
+			switch g.r.Intn(3) {
+			case 0:
+				g.b.WriteString("<pre>" + g.text(safe, false) + "</pre>")
+			case 1:
+				g.b.WriteString("<h4>" + g.text(safe, false) + "</h4>")
+			default:
+				g.b.WriteString("<section><p>" + g.text(safe, false) + "</p></section>")
+			}
+		}
 		if lvl < 3 && g.r.Pct(25) {
 			g.list(safe, depth, lvl+1, linky)
 		}
@@ -184,6 +195,10 @@ func (g *gen) container(safe bool, depth int) {
 	case 3:
 		tag := sim.Pick(g.r, []string{"nav", "aside", "header", "footer"})
 		isNav := tag == "nav" || tag == "aside"
+		// <header> / <footer> are only excluded at the top level (children of <body> or of a
+		// single wrapper); our <body> always has several element children, so one that sits
+		// inside some <div> is ordinary content
+		nestedHF := !isNav && depth >= 1 && safe
 		// sometimes inside a div that also has text of its own (no element around it)
 		bare := g.r.Pct(30)
 		if bare {
@@ -193,7 +208,11 @@ func (g *gen) container(safe bool, depth int) {
 		if isNav {
 			g.navDepth++
 		}
-		g.content(n, false, depth+1, g.r.Bool())
+		if nestedHF {
+			g.content(n, true, depth+1, false)
+		} else {
+			g.content(n, false, depth+1, g.r.Bool())
+		}
 		if isNav {
 			g.navDepth--
 		}
@@ -256,9 +275,30 @@ func (g *gen) demoteIfLinky(start int) {
 	}
 }
 
-func makePage(seed uint64, nodes int) *page {
-	g := &gen{r: sim.NewRand(seed), budget: nodes}
+func makePage(seed uint64, nodes int) *page { return makePageFrom(seed, nodes, 0) }
+
+// makePageFrom numbers its tokens from start+1 (chapters of one book must not share tokens).
+func makePageFrom(seed uint64, nodes int, start int) *page {
+	g := &gen{r: sim.NewRand(seed), budget: nodes, n: start}
 	g.b.WriteString("<!DOCTYPE html><html><head><title>C19 page</title><style>body{}</style></head><body>")
+	if g.r.Pct(20) {
+		// a body made of several plain <div>s only (no single wrapper): a <header> or <footer>
+		// directly inside one of them is not at the top level, so it is ordinary content
+		k := 2 + g.r.Intn(3)
+		for i := 0; i < k; i++ {
+			g.b.WriteString("<div>")
+			first := len(g.leaves)
+			if g.r.Pct(60) {
+				tag := sim.Pick(g.r, []string{"header", "footer"})
+				g.b.WriteString("<" + tag + "><p>" + g.text(true, false) + "</p></" + tag + ">")
+			}
+			g.content(sim.MaxInt(1, nodes/(2*k)), true, 1, false)
+			g.b.WriteString("</div>")
+			g.demoteIfLinky(first)
+		}
+		g.b.WriteString("<script>var z = 1;</script></body></html>")
+		return &page{html: g.b.String(), leaves: g.leaves}
+	}
 	// a top-level header/footer is a candidate; two structural children avoid the single-wrapper rule being decisive
 	if g.r.Bool() {
 		g.b.WriteString("<header>")
@@ -269,10 +309,10 @@ func makePage(seed uint64, nodes int) *page {
 	// detection applies to div/section/ul/ol only, and our safe leaves are mostly not links
 	g.content(sim.MaxInt(1, nodes/3), true, 0, false)
 	g.b.WriteString("<div>")
-	start := len(g.leaves)
+	first := len(g.leaves)
 	g.content(sim.MaxInt(1, nodes/3), true, 1, false)
 	g.b.WriteString("</div>")
-	g.demoteIfLinky(start)
+	g.demoteIfLinky(first)
 	for g.budget > 0 {
 		g.content(3, true, 0, false)
 	}
@@ -511,49 +551,89 @@ func (p *Prop) Execute(c *sim.Case, env *sim.Env) *sim.Result {
 			return tabula.FromHTMLReader(faults.NewSimReader([]byte(pg.html), sp.ChunkSeed+1, -1))
 		}
 	case "epub":
-		// the page as the only chapter of an EPUB
-		pkg := officew.EPUB(sim.NewRand(sp.Seed))
-		for i := range pkg.Members {
-			if strings.HasSuffix(pkg.Members[i].Name, ".xhtml") && !strings.HasSuffix(pkg.Members[i].Name, "nav.xhtml") {
-				pkg.Members[i].Data = []byte(pg.html)
+		// a book of 1-12 chapters in spine order (file names do not follow it); some chapters
+		// hold nothing but navigation or nothing at all, so they render empty under filtering
+		br := sim.NewRand(sp.Seed ^ 0xE9B)
+		nCh := 1 + br.Intn(5)
+		if br.Pct(40) {
+			nCh = 9 + br.Intn(4)
+		}
+		var chapters [][]byte
+		for k := 0; k < nCh; k++ {
+			switch {
+			case k > 0 && br.Pct(20):
+				chapters = append(chapters, []byte("<html><head><title>n</title></head><body><nav><ul><li><a href=\"#a\">w"+strconv.Itoa(900000+k)+"q only navigation</a></li></ul></nav></body></html>"))
+			case k > 0 && br.Pct(10):
+				chapters = append(chapters, []byte("<html><head><title>e</title></head><body></body></html>"))
+			default:
+				chapters = append(chapters, []byte(makePageFrom(sp.Seed+uint64(k)*7919, 3+br.Intn(sim.MaxInt(2, sp.Nodes/4)), (k+1)*1000).html))
 			}
 		}
-		data := pkg.Bytes()
+		data := officew.EPUBFromChapters(chapters, br).Bytes()
+		if img, ok := c.Images["epub"]; ok {
+			data = img
+		}
 		var er *epubdoc.Reader
-		if _, ok := guard("open", func() error { var err error; er, err = epubdoc.OpenReader(bytes.NewReader(data), int64(len(data))); return err }); !ok {
-			return done()
-		}
-		if er == nil {
-			fail("epub:open", "a well-formed EPUB built around the page cannot be opened")
-			return done()
-		}
-		var out string
-		if oc, ok := guard("epub", func() error { var err error; out, err = er.Text(); return err }); !ok || oc.Kind != "ok" {
+		if oc, ok := guard("open", func() error { var err error; er, err = epubdoc.OpenReader(bytes.NewReader(data), int64(len(data))); return err }); !ok || oc.Kind != "ok" {
 			if ok {
-				fail("epub:error", oc.Msg)
+				fail("epub:open", "a well-formed EPUB cannot be opened: "+oc.Msg)
 			}
 			return done()
 		}
-		got := tokens(out)
-		// every chapter carries the same page: the first occurrence of each token must follow document order
-		seen := map[string]bool{}
-		var firsts []string
-		for _, tk := range got {
-			if !seen[tk] {
-				seen[tk] = true
-				firsts = append(firsts, tk)
+		defer er.Close()
+		if er.ChapterCount() != nCh {
+			fail("epub:chapter-count", fmt.Sprintf("%d chapters reported, the spine lists %d", er.ChapterCount(), nCh))
+			return done()
+		}
+		for m := 0; m < 4; m++ {
+			for _, render := range []string{"text", "markdown"} {
+				// the library's own rendering of every chapter alone, in spine order
+				var want []string
+				for _, ch := range chapters {
+					var out string
+					if oc, ok := guard("chapter", func() error {
+						rd, err := htmldoc.OpenReader(bytes.NewReader(ch))
+						if err != nil {
+							return err
+						}
+						o := htmldoc.ExtractOptions{NavigationExclusion: modes[m]}
+						if render == "text" {
+							out, err = rd.TextWithOptions(o)
+						} else {
+							out, err = rd.MarkdownWithOptions(o)
+						}
+						return err
+					}); !ok || oc.Kind != "ok" {
+						return done()
+					}
+					want = append(want, tokens(out)...)
+				}
+				var out string
+				oc, ok := guard("epub", func() error {
+					var err error
+					if render == "text" {
+						out, err = er.TextWithOptions(epubdoc.ExtractOptions{NavigationExclusion: int(modes[m])})
+					} else {
+						out, err = er.MarkdownWithOptions(epubdoc.ExtractOptions{NavigationExclusion: int(modes[m])})
+					}
+					return err
+				})
+				if !ok {
+					return done()
+				}
+				if oc.Kind != "ok" {
+					fail("epub:error", oc.Msg)
+					return done()
+				}
+				got := tokens(out)
+				if strings.Join(got, " ") != strings.Join(want, " ") {
+					a, b := sim.DiffContext(strings.Join(want, " "), strings.Join(got, " "))
+					fail("epub:chapters:"+modeNames[m], fmt.Sprintf("the book's %s in mode %s is not its chapters' %s in spine order, each once (%d chapters)\n  chapters: %s\n  book:     %s", render, modeNames[m], render, nCh, a, b))
+					return done()
+				}
 			}
 		}
-		for _, l := range pg.leaves {
-			if l.safe && !seen[l.token] {
-				fail("epub:content-lost", fmt.Sprintf("chapter text %s is missing from the EPUB text", l.token))
-				break
-			}
-		}
-		if !isSubsequence(firsts, seqs[0]) {
-			fail("epub:order", "EPUB chapter text is not in document order")
-		}
-		er.Close()
+		res.Count("epub.chapters", int64(nCh))
 		return done()
 	}
 
@@ -653,6 +733,7 @@ func (p *Prop) Finalise(c *sim.Case, env *sim.Env) {
 		c.Images = map[string][]byte{}
 	}
 	c.Images["html"] = []byte(makePage(sp.Seed, sp.Nodes).html)
+	_ = env
 }
 
 func (p *Prop) Probes(env *sim.Env) []*sim.Case { return nil }
